@@ -83,9 +83,11 @@ func TestC20Policies(t *testing.T) {
 		var res vrun.Result
 		ok, dump := vrun.Watchdog(120*time.Second, func() { res = runCase(c, s) })
 		if !ok {
-			r := vrun.Inconcl("wall-clock watchdog (120 s) fired")
+			r := vrun.WatchdogVerdict("the case never finished")
 			r.Desc = s
-			r.Witness = map[string]any{"dump_head": dump[:min(len(dump), 6000)]}
+			if r.Verdict == vrun.Inconclusive {
+				r.Witness = map[string]any{"dump_head": dump[:min(len(dump), 6000)]}
+			}
 			return r
 		}
 		res.Desc = s
